@@ -70,12 +70,15 @@ type sim struct {
 	// blind: nobody looks at the deadline (Done / Err / Deadline are not called) during this step; the model advances all
 	// the same and the oracle runs at the next step that looks. An expiry nobody watched is an expiry all the same.
 	blind bool
+	// the instants this simulation uses for "past", "future A" and "future B" (defaults: an hour ago, 1000 h and 2000 h
+	// ahead; random sequences also use instants at the edges of what a time.Time or an int64 of nanoseconds can hold)
+	tPast, tA, tB time.Time
 }
 
 func newSim() *sim {
 	ft := &fakeTimer{}
 	d, cb := deadline.VerifNewWithTimer(ft)
-	return &sim{d: d, cb: cb, ft: ft, last: sZero}
+	return &sim{d: d, cb: cb, ft: ft, last: sZero, tPast: past, tA: farA, tB: farB}
 }
 
 func isClosed(ch <-chan struct{}) bool {
@@ -107,11 +110,11 @@ func (s *sim) applyRaw(st int) (bool, string, string) {
 		t := time.Time{}
 		switch st {
 		case sPast:
-			t = past
+			t = s.tPast
 		case sFutA:
-			t = farA
+			t = s.tA
 		case sFutB:
-			t = farB
+			t = s.tB
 		}
 		s.d.Set(t)
 		s.gen++
@@ -279,6 +282,12 @@ func fakeMode(tier string, seed int64, shard, nshard int, r *res.Result) {
 	}
 	for i := 0; i < n/nshard; i++ {
 		s := newSim()
+		if i%4 == 3 {
+			s.tPast = []time.Time{time.Unix(0, 0), time.Unix(0, 1), time.Date(1600, 1, 1, 0, 0, 0, 0, time.UTC), time.Unix(1, 0), time.Date(1, 1, 1, 0, 0, 1, 0, time.UTC)}[rng.Intn(5)]
+			s.tA = []time.Time{time.Date(2300, 1, 1, 0, 0, 0, 0, time.UTC), time.Date(9000, 1, 1, 0, 0, 0, 0, time.UTC), farA}[rng.Intn(3)]
+			s.tB = []time.Time{time.Date(2263, 1, 1, 0, 0, 0, 0, time.UTC), time.Unix(1<<40, 0), farB}[rng.Intn(3)]
+			r.Count("sequences_with_extreme_instants", 1)
+		}
 		var done []int
 		var looks []bool
 		pBlind := []int{0, 2, 4}[i%3] // a third of the sequences look at every step, the others at every second / fourth on average
@@ -297,7 +306,7 @@ func fakeMode(tier string, seed int64, shard, nshard int, r *res.Result) {
 			if key != "" {
 				viol[key]++
 				if viol[key] <= 2 {
-					r.Violate(key, fmt.Sprintf("after %v: %s", names(done), desc), map[string]interface{}{"steps": names(done), "looks": looks})
+					r.Violate(key, fmt.Sprintf("after %v: %s", names(done), desc), map[string]interface{}{"steps": names(done), "looks": looks, "past": s.tPast, "future_a": s.tA, "future_b": s.tB})
 				}
 				break
 			}
@@ -315,12 +324,23 @@ func fakeMode(tier string, seed int64, shard, nshard int, r *res.Result) {
 	}
 }
 
+var replayTimes [3]*time.Time
+
 func replaySeq(namesIn []string, look string, looks []bool, r *res.Result) {
 	idx := map[string]int{}
 	for i, n := range stepNames {
 		idx[n] = i
 	}
 	s := newSim()
+	if replayTimes[0] != nil {
+		s.tPast = *replayTimes[0]
+	}
+	if replayTimes[1] != nil {
+		s.tA = *replayTimes[1]
+	}
+	if replayTimes[2] != nil {
+		s.tB = *replayTimes[2]
+	}
 	var done []int
 	for k, n := range namesIn {
 		st := idx[n]
@@ -470,9 +490,12 @@ func main() {
 		b, _ := os.ReadFile(*replay)
 		var w struct {
 			Witness struct {
-				Steps []string `json:"steps"`
-				Look  string   `json:"look"`
-				Looks []bool   `json:"looks"`
+				Steps []string   `json:"steps"`
+				Look  string     `json:"look"`
+				Looks []bool     `json:"looks"`
+				Past  *time.Time `json:"past"`
+				FutA  *time.Time `json:"future_a"`
+				FutB  *time.Time `json:"future_b"`
 			} `json:"witness"`
 		}
 		if err := json.Unmarshal(b, &w); err != nil {
@@ -480,6 +503,7 @@ func main() {
 			os.Exit(2)
 		}
 		r.Eval(1)
+		replayTimes = [3]*time.Time{w.Witness.Past, w.Witness.FutA, w.Witness.FutB}
 		replaySeq(w.Witness.Steps, w.Witness.Look, w.Witness.Looks, r)
 		r.Write(*out)
 		return
